@@ -393,8 +393,22 @@ func TestC18Binding(t *testing.T) {
 					next := distinctKindsFrom(rt, n, inferableKinds())
 					cur = nil
 					for i, k := range next {
-						if rapid.IntRange(0, 2).Draw(rt, "keep-type") == 0 {
+						switch rapid.IntRange(0, 3).Draw(rt, "keep-type") {
+						case 0:
 							k = cols[i].Kind
+						case 1, 2:
+							// the same shape over the same scalar family with other parameters
+							// (DateTime64 precision / zone, Enum definition), at any nesting depth
+							var sib []*gen.Kind
+							for _, x := range inferableKinds() {
+								if x.Shape == cols[i].Kind.Shape && x.Scalar == cols[i].Kind.Scalar && x != cols[i].Kind {
+									sib = append(sib, x)
+								}
+							}
+							if len(sib) > 0 {
+								k = sib[rapid.IntRange(0, len(sib)-1).Draw(rt, "sibling")]
+								st.Label("autoresult-reinferred:same-shape-other-parameters")
+							}
 						}
 						cur = append(cur, colSpec{Name: cols[i].Name, Kind: k})
 					}
